@@ -23,6 +23,7 @@ through the vhdl_ls binary at the declaration and at one other occurrence, then
 """
 import json
 import os
+import random as random_mod
 import shutil
 import subprocess
 import threading
@@ -484,7 +485,16 @@ def pick_entities(R, ents, limit):
     cand = [x for x in ents if x.renameable and any(o.role == "d" for o in x.occs)]
     if limit is None or len(cand) <= limit:
         return cand
-    must = [x for x in cand if x.finding or any(o.site and o.site not in ("use_item", "attr_spec_alias") for o in x.occs)]
+    # the signature section (last files of a project) is sampled with its own random stream, so that the sample of
+    # the rest of the project does not depend on it
+    sg = [x for x in cand if getattr(x, "sigfam", False)]
+    cand = [x for x in cand if not getattr(x, "sigsec", False)]
+    R2 = random_mod.Random("sig:%d:%s" % (len(sg), sg[0].name if sg else ""))
+    R2.shuffle(sg)
+    sg_spec = [x for x in sg if any(o.site == "attr_spec_sig" for o in x.occs)]
+    sg_pick = sg_spec[:2] + [x for x in sg if x not in sg_spec][:1]
+    must = [x for x in cand if x.finding or any(o.site and o.site not in ("use_item", "attr_spec_alias", "attr_spec_sig")
+                                                 for o in x.occs)]
     # aliases, their targets and items named in by-item use clauses: a sample in every project
     focus = [x for x in cand if x not in must and (getattr(x, "focus", False)
                                                    or any(o.site in ("use_item", "attr_spec_alias") for o in x.occs))]
@@ -512,7 +522,8 @@ def pick_entities(R, ents, limit):
             out.append(by[k].pop(R.randrange(len(by[k]))))
             if len(out) >= limit:
                 break
-    return out
+    # overloads named with a signature (attribute specifications, alias declarations) and aliases of them
+    return out + sg_pick
 
 
 def main(tier, replay=None):
